@@ -44,6 +44,18 @@ def run(ctx):
         pvt = {c: interp1d(P, tb[c], fill_value="extrapolate") for c in mphase.COLS}
         pvt.update(rho)
         kr = {f: interp1d(krt["So"], krt[f]) for f in ("kro", "krg", "krw")}
+        if k % 5 == 3:
+            # a long table on a pressure grid whose step drifts slowly (1 psi growing by parts in 1e5 over the table: second differences
+            # far below any default closeness tolerance): the integral is taken over the rows' own pressures
+            nk = 4000 if ctx.quick else 9000
+            kk = np.arange(nk, dtype=float)
+            a_drift = 5e-10
+            P_new = float(P[0]) + (float(P[-1]) - float(P[0])) * (kk + a_drift * kk ** 2) / (nk - 1 + a_drift * (nk - 1) ** 2)
+            tb = {c_: (np.interp(P_new, P, np.asarray(v_, float)) if np.ndim(v_) == 1 and len(v_) == len(P) else v_) for c_, v_ in tb.items()}
+            tb["pressure"] = P_new
+            P, So = tb["pressure"], np.clip(tb["So"], 0, 1 - sw)
+            pvt = {c: interp1d(P, tb[c], fill_value="extrapolate") for c in mphase.COLS}
+            pvt.update(rho)
         m = np.asarray(pseudopressure_threephase(P, So, pvt, kr), float)
         lam = doc_mobility(P, So, pvt, kr)
         want = np.concatenate([[0.0], np.cumsum(np.diff(P) * (lam[1:] + lam[:-1]) / 2)])
